@@ -20,6 +20,7 @@ Supports expressions like:
 import ast
 import re
 import statistics
+import types
 import warnings
 from datetime import date as date_type
 from typing import Any, Dict, List, Optional, Set, Callable, Union
@@ -918,7 +919,13 @@ class TransactionEvaluator:
         raise ExpressionError(f"Cannot evaluate node type: {type(node).__name__}")
 
     def _eval_Expression(self, node: ast.Expression) -> Any:
-        return self.evaluate(node.body)
+        value = self.evaluate(node.body)
+        # A generator expression used as the whole expression (a let:, field:, tag or
+        # transform value) is materialised: callers get plain, reusable data rather
+        # than a one-shot generator object whose repr would leak into tags and fields.
+        if isinstance(value, types.GeneratorType):
+            value = list(value)
+        return value
 
     def _eval_Constant(self, node: ast.Constant) -> Any:
         return node.value
